@@ -394,3 +394,353 @@ def run_truth_table(P, rep, rule="R-TABLE.truth"):
         rep.viol(rule, "Value::Nil", P.where(fn), "nil answers Truthy/Default/Empty/Blank = %s, must be (False, True, True, True)" % (row,))
     else:
         rep.ok(rule, "Value::Nil", P.where(fn), "nil is falsy, default, empty and blank")
+
+
+# ---------------------------------------------------------------------------------------
+# C16: entity tables, URL set, strict decode
+
+def str_consts(P, fn, with_promoted=True):
+    from mirutil import all_operands
+    out = []
+    bodies = [fn]
+    if with_promoted:
+        bodies += [f for f in P.fns.values() if f.kind == "promoted" and f.raw.get("promoted_of") == fn.id]
+    for b in bodies:
+        for op in all_operands(b):
+            if op[0] == "k" and "str" in op[1]:
+                out.append(op[1]["str"])
+        for blk in b.blocks:
+            for st in blk["s"]:
+                if st[0] == "a" and st[2]["k"] == "use" and st[2]["o"][0] == "k" and "str" in st[2]["o"][1]:
+                    out.append(st[2]["o"][1]["str"])
+    return out
+
+
+ENTITY_SPEC = {60: "&lt;", 62: "&gt;", 39: "&#39;", 34: "&quot;", 38: "&amp;"}
+
+
+def run_entities(P, rep, rule="R-TABLE.entities"):
+    H = "liquid_lib::stdlib::filters::html::"
+    esc = P.fn_by_key(H + "escape")
+    nr = P.fn_by_key(H + "nr_escaped")
+    E = {s for s in str_consts(P, esc) if s.startswith("&") and s.endswith(";")}
+    Pfx = set(str_consts(P, nr))
+    if E != set(ENTITY_SPEC.values()):
+        rep.viol(rule, "escape entity set", P.where(esc), "escape emits entities %s; the five entities are %s" % (sorted(E), sorted(ENTITY_SPEC.values())))
+    else:
+        rep.ok(rule, "escape entity set", P.where(esc), "emits exactly %s" % sorted(E))
+    want = {e[1:] for e in E}
+    if Pfx != want:
+        rep.viol(rule, "nr_escaped prefixes", P.where(nr),
+                 "escape_once recognises %s after `&` but escape emits %s: an existing entity would be re-escaped or a near-entity left raw"
+                 % (sorted(Pfx), sorted(want)))
+    else:
+        rep.ok(rule, "nr_escaped prefixes", P.where(nr), "prefixes = entities without `&` (including the terminating `;`)")
+    # nr_escaped returns prefix.len() only after starts_with(prefix)
+    names = [t["f"]["id"].rsplit("::", 1)[1] for bi, t in P.calls(nr) if t.get("f")]
+    adds = [st for b in nr.blocks for st in b["s"] if st[0] == "a" and st[2]["k"] == "bin" and st[2]["op"].replace("WithOverflow", "") in ("Add", "Sub", "Mul")]
+    if "starts_with" not in names or "len" not in names or adds:
+        rep.viol(rule, "nr_escaped shape", P.where(nr), "nr_escaped is not `if text.starts_with(p) { return p.len() }` (calls %s, arithmetic %d)" % (sorted(set(names)), len(adds)))
+    else:
+        rep.ok(rule, "nr_escaped shape", P.where(nr), "returns len of the matched prefix, nothing added")
+    # char -> entity mapping in escape
+    mapping = {}
+    for bi, b in enumerate(esc.blocks):
+        t = b["t"]
+        if t["k"] != "switch":
+            continue
+        ol = op_local(t["o"])
+        if not ol or P.local_ty(esc, ol[0]) != "char":
+            continue
+        for v, tb in t["t"]:
+            # first string constant assigned on the straight-line path from the target
+            cur = tb
+            found = None
+            for _ in range(4):
+                blk = esc.blocks[cur]
+                for st in blk["s"]:
+                    if st[0] == "a" and st[2]["k"] == "use" and st[2]["o"][0] == "k" and "str" in st[2]["o"][1] and found is None:
+                        found = st[2]["o"][1]["str"]
+                if found or blk["t"]["k"] != "goto":
+                    break
+                cur = blk["t"]["t"]
+            if found and found.startswith("&") and found.endswith(";"):
+                mapping[v] = found
+    bad = {chr(k): v for k, v in mapping.items() if ENTITY_SPEC.get(k) != v}
+    missing = [chr(k) for k in ENTITY_SPEC if k not in mapping and k != 38]
+    if bad or missing:
+        rep.viol(rule, "escape char->entity", P.where(esc), "character-to-entity table differs: wrong %s, missing %s" % (bad, missing))
+    else:
+        rep.ok(rule, "escape char->entity", P.where(esc), "%s" % {chr(k): v for k, v in sorted(mapping.items())})
+
+
+def run_url(P, rep, rule="R-TABLE.url"):
+    U = "liquid_lib::stdlib::filters::url::"
+    fr = P.by_key(U + "FRAGMENT")
+    if len(fr) != 1:
+        rep.anchor_missing(rule, "const FRAGMENT")
+        return
+    fr = fr[0]
+    removed = []
+    adds = []
+    base = None
+    bodies = [fr] + [f for f in P.fns.values() if f.kind == "promoted" and f.raw.get("promoted_of") == fr.id]
+    for b in bodies:
+        for bi, t in P.calls(b):
+            f = t.get("f")
+            if not f:
+                continue
+            last = f["id"].rsplit("::", 1)[1]
+            if "AsciiSet" in f["name"] and last == "remove":
+                removed += [a[1].get("val") for a in t["args"] if a[0] == "k" and "val" in a[1]]
+            elif "AsciiSet" in f["name"] and last == "add":
+                adds += [a[1].get("val") for a in t["args"] if a[0] == "k" and "val" in a[1]]
+        from mirutil import all_operands
+        for op in all_operands(b):
+            if op[0] == "k" and op[1].get("uneval", "").endswith("NON_ALPHANUMERIC"):
+                base = "NON_ALPHANUMERIC"
+        for blk in b.blocks:
+            for st in blk["s"]:
+                if st[0] == "a" and st[2]["k"] == "use" and st[2]["o"][0] == "k" and st[2]["o"][1].get("uneval", "").endswith("NON_ALPHANUMERIC"):
+                    base = "NON_ALPHANUMERIC"
+    if base != "NON_ALPHANUMERIC" or sorted(removed) != [45, 46, 95] or adds:
+        rep.viol(rule, "FRAGMENT set", P.where(fr), "url_encode's set is %s minus %s plus %s; it must be NON_ALPHANUMERIC minus '-', '.', '_'"
+                 % (base, [chr(x) for x in removed if x is not None], adds))
+    else:
+        rep.ok(rule, "FRAGMENT set", P.where(fr), "NON_ALPHANUMERIC minus {'-', '.', '_'}")
+    # encode: every non-nil result derives from utf8_percent_encode(.., FRAGMENT)
+    enc = P.fn_by_key("<%sUrlEncodeFilter as liquid_core::parser::filter::Filter>::evaluate" % U)
+    _all_results_from(P, rep, rule, enc, "UrlEncode", "utf8_percent_encode", need_const="FRAGMENT")
+    dec = P.fn_by_key("<%sUrlDecodeFilter as liquid_core::parser::filter::Filter>::evaluate" % U)
+    names = [t["f"]["id"].rsplit("::", 1)[1] for bi, t in P.calls(dec) if t.get("f")]
+    probs = []
+    if "decode_utf8" not in names or "decode_utf8_lossy" in names:
+        probs.append("url_decode does not use the strict decode_utf8 (invalid UTF-8 must be an error)")
+    if "percent_decode" not in names:
+        probs.append("percent_decode is not applied")
+    if "replace" not in names:
+        probs.append("'+' is not translated to a space")
+    from r_lookup import must_propagate
+    if probs:
+        for p in probs:
+            rep.viol(rule, "UrlDecode", P.where(dec), p)
+    else:
+        rep.ok(rule, "UrlDecode", P.where(dec), "'+' -> ' ', percent_decode, strict decode_utf8")
+    import r_wprop
+    old = r_wprop.is_adapter
+    try:
+        r_wprop.is_adapter = lambda f, _o=old: _o(f) or f["name"].endswith(">::map_err") or f["name"].endswith("::map_err")
+        must_propagate(P, rep, rule, dec.key, lambda f: f["id"].rsplit("::", 1)[1] == "decode_utf8", "decode_utf8")
+    finally:
+        r_wprop.is_adapter = old
+    _all_results_from(P, rep, rule, dec, "UrlDecode", "decode_utf8")
+
+
+def _all_results_from(P, rep, rule, fn, label, producer, need_const=None):
+    """Every Ok(Value::scalar(x)) returned by fn has x derived from a call named `producer`."""
+    bad = 0
+    n = 0
+    for bi, t in P.calls(fn):
+        f = t.get("f")
+        if f and f["name"].endswith("Value::scalar"):
+            n += 1
+            ol = op_local(t["args"][0])
+            locs, calls = backward_slice(fn, ol[0]) if ol else (set(), [])
+            prods = [c for c in calls if c.get("f") and c["f"]["id"].rsplit("::", 1)[1] == producer]
+            if not prods:
+                bad += 1
+                rep.viol(rule, "%s bypass" % label, P.where(fn, t["line"]),
+                         "a result is returned that does not come from %s: some inputs skip the %s step" % (producer, label))
+            elif need_const:
+                okc = False
+                for c in prods:
+                    for a in c["args"]:
+                        if a[0] == "k" and a[1].get("uneval", "").endswith(need_const):
+                            okc = True
+                        ol2 = op_local(a)
+                        if ol2:
+                            for blk in fn.blocks:
+                                for st in blk["s"]:
+                                    if st[0] == "a" and st[1][0] == ol2[0] and st[2]["k"] == "use" and st[2]["o"][0] == "k" and st[2]["o"][1].get("uneval", "").endswith(need_const):
+                                        okc = True
+                if not okc:
+                    bad += 1
+                    rep.viol(rule, "%s set" % label, P.where(fn, t["line"]), "%s is not given the constant %s" % (producer, need_const))
+    if n and not bad:
+        rep.ok(rule, "%s results" % label, P.where(fn), "every returned scalar derives from %s" % producer)
+    elif not n:
+        rep.viol(rule, "%s results" % label, P.where(fn), "no Value::scalar result found")
+
+
+# ---------------------------------------------------------------------------------------
+# C17: strftime directive table, writer/reader format agreement, offset pattern
+
+DIRECTIVE_SPEC = {
+    # directive characters -> accessors of time::OffsetDateTime that feed them (read off the pinned tree and
+    # checked against the strftime documentation)
+    "%nt": (), "FvDx": ("day", "month", "year"), "GgV": ("to_iso_week_date",), "HkIlPp": ("hour",), "LN": ("nanosecond",),
+    "M": ("minute",), "R": ("hour", "minute"), "S": ("second",), "TXr": ("hour", "minute", "second"),
+    "U": ("sunday_based_week",), "W": ("monday_based_week",), "YCy": ("year",), "aA": ("weekday",),
+    "c": ("day", "hour", "minute", "month", "second", "weekday", "year"), "de": ("day",), "j": ("ordinal",), "mbhB": ("month",),
+    "s": ("unix_timestamp",), "u": ("number_from_monday", "weekday"), "w": ("number_days_from_sunday", "weekday"),
+    "zZ:": ("is_negative", "minutes_past_hour", "offset", "seconds_past_minute", "whole_hours"),
+}
+
+
+def run_directives(P, rep, rule="R-TABLE.strftime"):
+    fn = P.fn_by_key("liquid_core::model::scalar::datetime::strftime::strftime")
+    best = None
+    for bi, b in enumerate(fn.blocks):
+        t = b["t"]
+        if t["k"] == "switch":
+            ol = op_local(t["o"])
+            if ol and P.local_ty(fn, ol[0]) == "char" and (best is None or len(t["t"]) > len(fn.blocks[best]["t"]["t"])):
+                best = bi
+    if best is None or len(fn.blocks[best]["t"]["t"]) < 30:
+        rep.anchor_missing(rule, "directive match in strftime")
+        return
+    t = fn.blocks[best]["t"]
+    targets = sorted(set(tb for v, tb in t["t"]))
+    regs = {tb: P.reach(fn, [tb], stop={best}) for tb in targets}
+    common = set.intersection(*[regs[tb] for tb in targets])
+    got = {}
+    for v, tb in t["t"]:
+        names = set()
+        work = list(regs[tb] - common)
+        seen_fns = set()
+        for bi in work:
+            tt = fn.blocks[bi]["t"]
+            if tt["k"] == "call" and tt.get("f"):
+                f = tt["f"]
+                if f["krate"] == "time":
+                    names.add(f["name"].split("::")[-1])
+                elif f["krate"].startswith("liquid") and not f.get("trait"):
+                    # helper functions are inlined one level
+                    for tg in P.callee_targets(tt):
+                        g = P.fns.get(tg)
+                        if g is not None and g.id not in seen_fns:
+                            seen_fns.add(g.id)
+                            for b2, t2 in P.calls(g):
+                                if t2.get("f") and t2["f"]["krate"] == "time":
+                                    names.add(t2["f"]["name"].split("::")[-1])
+        got[chr(v)] = tuple(sorted(names))
+    want = {}
+    for chars, acc in DIRECTIVE_SPEC.items():
+        for c in chars:
+            want[c] = acc
+    n_ok = 0
+    for c in sorted(want):
+        if c not in got:
+            rep.viol(rule, "directive %%%s" % c, P.where(fn), "directive %%%s is no longer handled by its own arm" % c)
+        elif got[c] != want[c]:
+            rep.viol(rule, "directive %%%s" % c, P.where(fn),
+                     "%%%s is computed from %s; its documented meaning needs exactly %s" % (c, list(got[c]), list(want[c])))
+        else:
+            n_ok += 1
+            rep.ok(rule, "directive %%%s" % c, P.where(fn), "fed by %s" % (list(want[c]) or "no calendar field"))
+    for c in sorted(set(got) - set(want)):
+        rep.viol(rule, "directive %%%s" % c, P.where(fn), "new directive %%%s is not in the specification table" % c)
+
+
+def const_refs(P, fn):
+    from mirutil import all_operands
+    out = set()
+    bodies = [fn] + [f for f in P.fns.values() if f.kind == "promoted" and f.raw.get("promoted_of") == fn.id]
+    for b in bodies:
+        for op in all_operands(b):
+            if op[0] == "k" and "uneval" in op[1]:
+                out.add(op[1]["uneval"])
+        for blk in b.blocks:
+            for st in blk["s"]:
+                if st[0] == "a" and st[2]["k"] == "use" and st[2]["o"][0] == "k" and "uneval" in st[2]["o"][1]:
+                    out.add(st[2]["o"][1]["uneval"])
+    return out
+
+
+def run_date_formats(P, rep, rule="R-TABLE.dateformats"):
+    D = "liquid_core::model::scalar::datetime::"
+    disp = P.fn_by_key("<%sDateTime as core::fmt::Display>::fmt" % D)
+    parse = P.fn_by_key(D + "parse_date_time")
+    w = {c for c in const_refs(P, disp) if "FORMAT" in c}
+    r = set()
+    todo = [c for c in const_refs(P, parse)]
+    seen = set()
+    while todo:
+        c = todo.pop()
+        if c in seen:
+            continue
+        seen.add(c)
+        if "FORMAT" in c and "USER_FORMATS" not in c:
+            r.add(c)
+        cf = P.fns.get(c)
+        if cf is not None:
+            todo += list(const_refs(P, cf))
+    if not w:
+        rep.viol(rule, "Display formats", P.where(disp), "no format constants found in Display for DateTime")
+    elif not w <= r:
+        rep.viol(rule, "Display formats parse back", P.where(parse),
+                 "Display for DateTime prints with %s but parse_date_time only accepts %s: the default printed form does not parse back"
+                 % (sorted(x.rsplit("::", 1)[1] for x in w), sorted(x.rsplit("::", 1)[1] for x in r)))
+    else:
+        rep.ok(rule, "Display formats parse back", P.where(parse), "printed with %s, all accepted by the parser" % sorted(x.rsplit("::", 1)[1] for x in w))
+    # serde (friendly_date_time) writes and reads with the same two constants
+    ser = [f for f in P.fns.values() if f.id.startswith(D + "friendly_date_time::serialize")]
+    de = [f for f in P.fns.values() if f.id.startswith(D + "friendly_date_time::deserialize")]
+    ws, rs = set(), set()
+    for f in ser:
+        ws |= {c for c in const_refs(P, f) if "FORMAT" in c}
+    for f in de:
+        rs |= {c for c in const_refs(P, f) if "FORMAT" in c}
+    if ws and ws == rs:
+        rep.ok(rule, "friendly_date_time", "-", "serialize and deserialize use %s" % sorted(x.rsplit("::", 1)[1] for x in ws))
+    else:
+        rep.viol(rule, "friendly_date_time", "-", "serde writer uses %s but reader %s" % (sorted(ws), sorted(rs)))
+    # the offset-detection pattern accepts every offset the printed form can carry
+    import re
+    pats = sorted({s for s in str_consts(P, parse) if "[" in s and "$" in s})
+    if len(pats) != 1:
+        rep.viol(rule, "offset pattern", P.where(parse), "expected one offset-detection pattern constant, found %d" % len(pats))
+        return
+    try:
+        rx = re.compile(pats[0])
+    except re.error:
+        rep.note("offset pattern %r is not analysable with the reference regex engine" % pats[0])
+        rep.ok(rule, "offset pattern", P.where(parse), "not analysable: %r" % pats[0])
+        return
+    miss = []
+    for sign in "+-":
+        for hh in range(0, 15):
+            for mm in (0, 15, 30, 45):
+                if sign == "-" and hh > 12:
+                    continue
+                s_ = "2020-01-01 10:00:00 %s%02d%02d" % (sign, hh, mm)
+                if not rx.search(s_):
+                    miss.append("%s%02d%02d" % (sign, hh, mm))
+    false_pos = [s_ for s_ in ("2020-01-01 10:00:00", "2020-01-01", "1 January 2020 10:00:00") if rx.search(s_)]
+    if miss or false_pos:
+        rep.viol(rule, "offset pattern", P.where(parse),
+                 "the constant pattern %r that detects a trailing UTC offset misses %s%s: such date-times do not parse back"
+                 % (pats[0], miss[:8], (" and matches offset-less %s" % false_pos) if false_pos else ""))
+    else:
+        rep.ok(rule, "offset pattern", P.where(parse), "%r recognises every +-HHMM offset from -1200 to +1445 and no offset-less form" % pats[0])
+
+
+def run_date_cmp(P, rep, rule="R-TABLE.datecmp"):
+    """DateTime/Date compare through the wrapped time types (instant-based), via derive."""
+    for aid, inner in (("liquid_core::model::scalar::datetime::DateTime", "time::offset_date_time::OffsetDateTime"),
+                       ("liquid_core::model::scalar::date::Date", "time::date::Date")):
+        adt = P.adts.get(aid)
+        if adt is None:
+            rep.anchor_missing(rule, aid)
+            continue
+        fields = adt["variants"][0]["fields"]
+        ftys = [P.tstr(adt["crate"], f["ty"]) for f in fields]
+        impls = [im for im in P.impls if im["crate"] == "liquid_core" and im.get("trait") in ("core::cmp::PartialEq", "core::cmp::PartialOrd")
+                 and P.impl_self_str(im) == aid]
+        derived = [im for im in impls if im["expn"]]
+        hand = [im for im in impls if not im["expn"]]
+        if ftys == [inner] and len(derived) >= 2 and not hand:
+            rep.ok(rule, aid.rsplit("::", 1)[1], "-", "single field %s with derived PartialEq/PartialOrd: comparisons are the wrapped type's (chronological)" % inner)
+        else:
+            rep.viol(rule, aid.rsplit("::", 1)[1], "-", "fields %s, derived cmp impls %d, hand-written %d: comparison is no longer simply the wrapped instant's"
+                     % (ftys, len(derived), len(hand)))
